@@ -5,6 +5,7 @@ namespace nvdrv
 {
 using namespace nano;
 tensor_size_t idiv_l_i(tensor_size_t a, int b) { return idiv(a, b); }
+tensor_size_t idiv_l_l(tensor_size_t a, tensor_size_t b) { return idiv(a, b); }
 } // namespace nvdrv
 // enum values the C model of gboost::sampler_t::sample relies on (specs/C12/gsampler.h)
 #include <nano/gboost/enums.h>
